@@ -110,7 +110,7 @@ func StringsN(dest *[]string, nVar *int) ParserFunc {
 		if len(args) == 0 {
 			return false, args, nil
 		}
-		if len(args) < n {
+		if n < 0 || len(args) < n {
 			return true, args, ErrInvalidArgNum
 		}
 		*dest = make([]string, n)
